@@ -22,7 +22,7 @@ def _patched():
     import numpy
     from orquestra.quantum.operators import _pauli_operators as PO
 
-    return ST.patched((PO, "np", ST.NpProxy(numpy)))
+    return ST.patched((PO, "np", ST.NpProxy(numpy)), (PO, "float", ST.float_shadow))
 
 
 class Vars:
@@ -141,7 +141,10 @@ def work(item):
     res = Result(f"{kind}|{p['label']}")
     from orquestra.quantum.operators import _pauli_operators as PO
 
-    res.fn(PO.PauliTerm.__mul__, PO.PauliTerm._multiply_by_operator, PO.PauliTerm.__add__, PO.PauliTerm.__sub__, PO.PauliTerm.__rsub__, PO.PauliTerm.__truediv__, PO.PauliTerm.__pow__, PO.PauliTerm.__eq__, PO.PauliTerm.__hash__, PO.PauliSum.__add__, PO.PauliSum.__mul__, PO.PauliSum.__rmul__, PO.PauliSum.__sub__, PO.PauliSum.__rsub__, PO.PauliSum.__truediv__, PO.PauliSum.__pow__, PO.PauliSum.simplify, PO.PauliSum.__eq__, PO._efficient_exponentiation)
+    try:  # evidence only: a renamed private helper must not break the check
+        res.fn(PO.PauliTerm.__mul__, PO.PauliTerm._multiply_by_operator, PO.PauliTerm.__add__, PO.PauliTerm.__sub__, PO.PauliTerm.__rsub__, PO.PauliTerm.__truediv__, PO.PauliTerm.__pow__, PO.PauliTerm.__eq__, PO.PauliTerm.__hash__, PO.PauliSum.__add__, PO.PauliSum.__mul__, PO.PauliSum.__rmul__, PO.PauliSum.__sub__, PO.PauliSum.__rsub__, PO.PauliSum.__truediv__, PO.PauliSum.__pow__, PO.PauliSum.simplify, PO.PauliSum.__eq__, PO._efficient_exponentiation)
+    except AttributeError:
+        pass
     res.d["cuts"].append("numpy proxy in _pauli_operators: isclose/allclose -> exact-real formula |a-b| <= atol + rtol|b| as a forked predicate")
     res.d["cuts"].append("round() of a symbolic coefficient inside PauliTerm.__hash__ is a constant-hash placeholder: set membership falls through to the real __eq__")
     try:
